@@ -182,6 +182,15 @@ def frame_configs(mgr, frame):
     return crit, pfc
 
 
+# how an abstract confidence (percent) becomes a float: "wide" = c / 100; "tight" = 0.5 + c * 1e-9 (still pairwise distinct and in the same order,
+# but closer together than single precision resolves)
+CONF_RENDER = "wide"
+
+
+def conf_value(c):
+    return c / 100.0 if CONF_RENDER == "wide" else 0.5 + c * 1e-9
+
+
 def render_objects(frame, rendering, ego):
     """`rendering`: base_link | map | base_link:derived (objects obtained through the library's interpolation instead of built afresh)"""
     from ..build import derive, obj3d
@@ -193,7 +202,7 @@ def render_objects(frame, rendering, ego):
     ests, gts = [], []
     for i, e in enumerate(frame["ests"]):
         at, nm = attr_kwargs(e["attr"], e["label"])
-        o_ = obj3d((e["x"], e["y"], 0), label=e["label"], score=e["conf"] / 100.0, frame=fr, ego=ego, uuid="e%d" % (i + 1), vid=i + 1, attributes=at, points=None)
+        o_ = obj3d((e["x"], e["y"], 0), label=e["label"], score=conf_value(e["conf"]), frame=fr, ego=ego, uuid="e%d" % (i + 1), vid=i + 1, attributes=at, points=None)
         o_.semantic_label.name = nm
         ests.append(o_)
     for j, g in enumerate(frame["gts"]):
